@@ -231,11 +231,12 @@ def der_outside(curve: str, length: int) -> bool:
     return length // 2 in (32, 48, 66) or not (2 * cl + 3 <= length <= 2 * cl + 8)
 
 
-def with_len(rng, nbytes: int) -> int:
-    """random positive integer whose DER INTEGER content has exactly `nbytes` octets"""
-    if nbytes == 1:
-        return rng.randrange(1, 128)
-    return rng.randrange(1 << (8 * nbytes - 9), 1 << (8 * nbytes - 1))
+def with_len(rng, nbytes: int, below: int = 0) -> int:
+    """random positive integer (< `below` when given and possible) whose DER INTEGER content has exactly `nbytes` octets"""
+    lo, hi = (1, 128) if nbytes == 1 else (1 << (8 * nbytes - 9), 1 << (8 * nbytes - 1))
+    if below and lo < below < hi:
+        hi = below
+    return rng.randrange(lo, hi)
 
 
 def pubnum(k):
@@ -374,7 +375,7 @@ def run(ck):
         pairs.append((rng.getrandbits(rng.randrange(1, 530)) + 1, v))
     for nb in list(range(120, 136)) + list(range(250, 261)):
         pairs.append((with_len(rng, nb), with_len(rng, rng.choice([1, 5, 32, 66, 120, 127, 128, 200]))))
-    for _ in range(ck.budget(300, 6000)):
+    for _ in range(ck.budget(300, 30000)):
         pairs.append((rng.getrandbits(rng.randrange(1, 1100)), rng.getrandbits(rng.randrange(1, 1100))))
     reqs, encs = [], []
     for r, t in pairs:
@@ -437,7 +438,7 @@ def run(ck):
             s.expect(cutils.encode_dss_signature(r0, s0) == b, ("dec", b), "decoder accepts a non-canonical encoding (decode then encode differs)", real)
     corr(s, reqs)
 
-    marks.append(("before: 2. ECDSASignature", time.time()))
+    marks.append(("der_codec", time.time()))
     # ================================================================== 2. ECDSASignature parse / export / sniffing, serialize, get_signature
     class _FixedSP(SignatureProvider):
         """signature provider whose `sign` returns a prepared byte string (what an HSM / plugin provider would return)"""
@@ -526,7 +527,7 @@ def run(ck):
         for v in special:
             sig_case(curve, v, rng.choice(special), "boundary")
             sig_case(curve, rng.randrange(1, n), v, "boundary")
-        for _ in range(ck.budget(40, 3000)):
+        for _ in range(ck.budget(250, 15000)):
             sig_case(curve, rng.randrange(1, n), rng.randrange(1, n), "random")
         for v in (256 ** cl, 256 ** cl + 5, 2 ** (8 * cl + 7)):  # do not fit: export must refuse
             sig_case(curve, v, 1, "overflow")
@@ -534,20 +535,24 @@ def run(ck):
         # DER total length forced to every value around the raw length and the window, and into other curves' windows
         targets = list(range(2 * cl - 2, 2 * cl + 10)) + [t for t in (8, 40, 66, 67, 72, 73, 98, 99, 104, 105, 134, 135, 140, 141) if t <= 2 * cl + 9]
         for total in sorted(set(targets)):
-            for _ in range(ck.budget(2, 12)):
-                hdr = 2 if total - 2 < 128 else 3
-                content = total - hdr - 4
-                if hdr == 3 and content + 4 < 128:
-                    continue
-                max_int = n.bit_length() // 8 + 1
-                lo, hi = max(1, content - max_int), min(max_int, content - 1)
-                if lo > hi:
-                    continue
+            hdr = 2 if total - 2 < 128 else 3
+            content = total - hdr - 4
+            max_int = n.bit_length() // 8 + 1
+            lo, hi = max(1, content - max_int), min(max_int, content - 1)
+            if (hdr == 3 and content + 4 < 128) or lo > hi:
+                continue  # no (r, s) below n has a DER signature of this length
+            done = 0
+            for _ in range(200):
                 lr = rng.randrange(lo, hi + 1)
-                r0, s0 = with_len(rng, lr), with_len(rng, content - lr)
+                r0, s0 = with_len(rng, lr, n), with_len(rng, content - lr, n)
                 if r0 >= n or s0 >= n or der_sig_len(r0, s0) != total:
                     continue
                 sig_case(curve, r0, s0, f"derlen{'-in' if not der_outside(curve, total) else '-out'}")
+                done += 1
+                if done >= ck.budget(3, 12):
+                    break
+            if not done:
+                raise Infra(f"no signature of DER length {total} constructed for {curve}")
     for L in range(0, 301):
         s.note(("curve_of_len", L), cls="get_ecc_curve")
         reqs.append((("curve_of_len", L), f"sig_curve {L}", canon(pyres(lambda: ECDSASignature.get_ecc_curve(L).value))))
@@ -564,7 +569,7 @@ def run(ck):
     corr(s, reqs)
     ck.extra["ecdsa_sig_counts"] = hits
 
-    marks.append(("before: keys of this run", time.time()))
+    marks.append(("ecdsa_sig", time.time()))
     # ================================================================== keys of this run
     keys = []  # (label, private key object)
     for curve, c in CURVES.items():
@@ -578,6 +583,8 @@ def run(ck):
                 if (pk.x if which == "x" else pk.y) < 256 ** (cl - 1):
                     keys.append((f"{curve}/lz{which}", k))
                     break
+        for i in range(ck.budget(2, 24)):
+            keys.append((f"{curve}/r{i}", ec_key(curve, rng.randrange(1, c["n"]))))
     keys.append(("secp256r1/d=1", ec_key("secp256r1", 1)))
     keys.append(("secp384r1/d=n-1", ec_key("secp384r1", CURVES["secp384r1"]["n"] - 1)))
     rsa_sizes = [2048] if ck.quick else [2048, 2048, 3072, 4096]
@@ -608,7 +615,7 @@ def run(ck):
         o = rsa_other[bits]
         return o if o is not k else [kk for ll, kk in keys if isinstance(kk, PrivateKeyRsa) and kk.key_size == bits and kk is not k][0]
 
-    marks.append(("before: 3. key serialisation", time.time()))
+    marks.append(("key_generation", time.time()))
     # ================================================================== 3. key serialisation
     s = ck.stream("key_serialisation", "every key of the run (P-256/384/521 incl. leading-zero X / Y, d=1, d=n-1; RSA-2048 generated from seeded primes; "
                   "RSA 2048/3072/4096 from tests data; thorough: generated 3072/4096): private export PEM/DER x password {none, ascii, non-ascii} -> "
@@ -763,7 +770,7 @@ def run(ck):
                 pub_parse_reqs(b[:-3] + b"\x01\x00\x00", "blob-e-even")
     corr(s, reqs_pub)
 
-    marks.append(("before: 4. get_file_encodings", time.time()))
+    marks.append(("key_serialisation", time.time()))
     # ================================================================== 4. get_file_encodings (UTF-8 + "----")
     s = ck.stream("file_encoding", "every 1- and 2-byte string followed by '----' (exhaustive), 3/4-byte sequences over the boundary bytes of every UTF-8 "
                   "lead-byte class followed by '----', dashes split by other bytes, PEM / DER exports of the run's keys with one byte changed; "
@@ -783,11 +790,12 @@ def run(ck):
         real = canon(pyres(lambda: SPSDKEncoding.get_file_encodings(b).value.lower()))
         s.note(b, cls=real)
         reqs.append((b, "file_enc " + hexs(b), real))
-        want = "pem" if (_utf8_ok(b) and b"----" in b) else "der"
-        s.expect(real == "ok:" + want, b, "get_file_encodings is not 'valid UTF-8 text containing ----'", real, want)
+        # the property only needs PEM text to be recognised as PEM and binary DER / raw data as DER (checked on every export of the
+        # key_serialisation stream); on arbitrary bytes the answer is compared with the model only
+        s.expect(real in ("ok:pem", "ok:der"), b, "get_file_encodings raises or answers something else than PEM / DER", real)
     corr(s, reqs)
 
-    marks.append(("before: 5. sign / verify", time.time()))
+    marks.append(("file_encoding", time.time()))
     # ================================================================== 5. sign / verify
     s = ck.stream("sign_verify", "every key x hash {sha256, sha384, sha512 (+sha1 thorough)} x {PKCS#1 v1.5, PSS | raw, DER} x {message, pre-hashed}: SPSDK verify, "
                   "cryptography called directly, pure-Python RSA / ECDSA verifier; negative: single-bit changes of message and signature, other key, "
@@ -863,6 +871,9 @@ def run(ck):
                             cl = CURVES[k.curve.value]["cl"]
                             if not der_format:
                                 s.expect(len(sg[1]) == 2 * cl == k.signature_size, inp, "raw signature is not 2 x coordinate size long", len(sg[1]), 2 * cl)
+                            else:
+                                dd = pyres(cutils.decode_dss_signature, sg[1])
+                                s.expect(dd[0] == "ok" and cutils.encode_dss_signature(*dd[1]) == sg[1], inp, "sign(der_format=True) does not return a DER signature", sg[1])
                             check_ecc_sig(label, k, pub, sg[1], msg, hname, prehashed, inp)
                 else:
                     for pss in (False, True):
@@ -956,7 +967,7 @@ def run(ck):
                 ls = total - hdr - 4 - der_int_len(r0)
                 if r0 == 0 or ls < 1 or ls > n.bit_length() // 8 + 1 or (hdr == 3 and total - 3 < 128):
                     continue
-                s0 = with_len(rng, ls)
+                s0 = with_len(rng, ls, n)
                 d = (s0 * kk - z) * pow(r0, -1, n) % n
                 if d == 0 or s0 >= n or der_sig_len(r0, s0) != total:
                     continue
@@ -969,13 +980,82 @@ def run(ck):
                 label = f"{curve}/constructed"
                 others[label] = ec_key(curve, rng.randrange(1, n))
                 for fmt, sg in (("der", der), ("raw", r0.to_bytes(cl, "big") + s0.to_bytes(cl, "big"))):
-                    inp = (label, f"derlen={total}", fmt, d, msg)
+                    inp = (label, f"derlen={total}", fmt, {"private_value": d, "r": r0, "s": s0, "signature": sg.hex(), "hash": hname}, msg)
                     s.note(inp, cls=f"ecc/{curve}/constructed-{fmt}-len{'=raw' if total == 2 * cl else '!=raw'}")
                     check_ecc_sig(label, key, pub, sg, msg, hname, False, inp)
                 # a certificate-style check through get_matching_key_id_from_signature (utils.py)
                 r = pyres(sutils.get_matching_key_id_from_signature, [others[label].get_public_key(), pub], msg, der, HASHES[hname][0])
                 s.expect(r == ("ok", 1), (label, f"derlen={total}", "get_matching_key_id_from_signature"), "the matching key is not found for a valid DER signature", r, 1)
     ck.extra["constructed_signatures"] = ncon
+    marks.append(("sign_verify", time.time()))
+
+    # ================================================================== 6. nxpcrypto command line (key convert / signature create / verify)
+    s2 = ck.stream("nxpcrypto_cli", "one key per type (P-256, P-384, P-521, a P-521 key whose X needs all 66 bytes, RSA-2048; thorough: every key): key convert to "
+                   "PEM / DER / RAW (private, --puk) -> load -> same key, RAW public = export(NXP); signature create x {NXP, DER | v1.5, PSS} x hash -> "
+                   "cryptography directly + signature verify says 'IS matching', changed data 'IS NOT matching'; non-trivial = distinct command; cls = command")
+    from click.testing import CliRunner
+    from spsdk.apps import nxpcrypto
+    runner = CliRunner()
+
+    def cli(*args):
+        r = runner.invoke(nxpcrypto.main, list(args))
+        return r.exit_code, r.output
+    big521 = next((kk for ll, kk in keys if isinstance(kk, PrivateKeyEcc) and kk.curve.value == "secp521r1" and kk.get_public_key().x >> 520), None)
+    cli_keys = [(ll, kk) for ll, kk in keys if "/" not in ll or ll.endswith("gen") or not ck.quick] + ([("secp521r1/bigx", big521)] if big521 else [])
+    for n_k, (label, k) in enumerate(cli_keys):
+        pub = k.get_public_key()
+        is_ecc = isinstance(k, PrivateKeyEcc)
+        d = scratch / f"cli{n_k}"
+        d.mkdir(exist_ok=True)
+        prk, data_f = str(d / "prk.pem"), str(d / "data.bin")
+        k.save(prk)
+        msg = bytes(rng.getrandbits(8) for _ in range(rng.randrange(1, 200)))
+        Path(data_f).write_bytes(msg)
+        for enc, puk in (("PEM", False), ("DER", False), ("PEM", True), ("DER", True)) + ((("RAW", True),) if is_ecc else ()):
+            out = str(d / f"out_{enc}_{int(puk)}.bin")
+            inp = (label, "key convert", enc, "puk" if puk else "private") + (({"curve": k.curve.value, "private_value": k.d},) if is_ecc else ())
+            s2.note(inp, cls=f"key convert {enc}{' --puk' if puk else ''}")
+            rc = cli("key", "convert", "-e", enc, "-i", prk, "-o", out, *(["--puk"] if puk else []))
+            if not s2.expect(rc[0] == 0 and os.path.exists(out), inp, "nxpcrypto key convert fails", rc):
+                continue
+            r = pyres((PublicKey if puk else PrivateKey).load, out)
+            same = r[0] == "ok" and ((pubnum(r[1]) == pubnum(pub)) if puk else (privnum(r[1]) == privnum(k)))
+            s2.expect(same, inp, "the converted key file does not load to the same key", r if r[0] != "ok" else "different key")
+            if enc == "RAW":
+                s2.expect(Path(out).read_bytes() == pub.export(SPSDKEncoding.NXP), inp, "RAW public key differs from PublicKeyEcc.export(NXP)", len(Path(out).read_bytes()))
+        puk_f = str(d / "out_PEM_1.bin")
+        variants = [("NXP", None), ("DER", "sha512")] if is_ecc else [("v15", None), ("pss", "sha384")]
+        for var, alg in variants:
+            sig_f = str(d / f"sig_{var}.bin")
+            inp = (label, "signature", var, alg, msg)
+            s2.note(inp, cls=f"signature create/verify {var}")
+            args = ["signature", "create", "-k", prk, "-i", data_f, "-o", sig_f] + (["-a", alg] if alg else []) + (["-e", var] if is_ecc else []) + (["-pp"] if var == "pss" else [])
+            rc = cli(*args)
+            if not s2.expect(rc[0] == 0 and os.path.exists(sig_f), inp, "nxpcrypto signature create fails", rc):
+                continue
+            sig = Path(sig_f).read_bytes()
+            hname = alg or (CURVES[k.curve.value]["hash"] if is_ecc else "sha256")
+            hcls = HASHES[hname][1]
+            if is_ecc:
+                cl = CURVES[k.curve.value]["cl"]
+                der = sig if var == "DER" else cutils.encode_dss_signature(int.from_bytes(sig[:cl], "big"), int.from_bytes(sig[cl:], "big"))
+                s2.expect((len(sig) == 2 * cl) == (var == "NXP"), inp, "signature file is not in the requested encoding", len(sig))
+                ok = crypto_verify_ec(pub.key, der, msg, hcls)
+            else:
+                pad = padding.PSS(mgf=padding.MGF1(hcls()), salt_length=padding.PSS.DIGEST_LENGTH) if var == "pss" else padding.PKCS1v15()
+                try:
+                    pub.key.verify(sig, msg, pad, hcls())
+                    ok = True
+                except InvalidSignature:
+                    ok = False
+            s2.expect(ok, inp, "cryptography (called directly) rejects the signature file nxpcrypto wrote")
+            vargs = ["signature", "verify", "-k", puk_f, "-i", data_f, "-s", sig_f] + (["-a", alg] if alg else []) + (["-pp"] if var == "pss" else [])
+            rc = cli(*vargs)
+            s2.expect(rc[0] == 0 and "IS matching" in rc[1], inp, "nxpcrypto signature verify does not confirm the signature it created", rc)
+            bad_f = str(d / "bad.bin")
+            Path(bad_f).write_bytes(flip(msg, rng.randrange(8 * len(msg))))
+            rc = cli(*[bad_f if a == data_f else a for a in vargs])
+            s2.expect("IS NOT matching" in rc[1], inp + ("changed data",), "nxpcrypto signature verify accepts changed data", rc)
     ck.extra["negative_checks"] = nneg
     # correspondence for verify_signature: SPSDK's answer = "the backend accepts one of the model's candidate encodings"
     if drv is not None and vreqs:
@@ -998,16 +1078,8 @@ def run(ck):
             s.note(("verify-junk", j), nontrivial=False, cls="junk")
             s.compare(("verify-junk", j), canon(real), canon(("ok", model)))
             s.expect(real == ("ok", False), ("verify-junk", j), "a damaged signature verifies or raises", real, False)
-    marks.append(("end", time.time()))
+    marks.append(("nxpcrypto_cli+verify_correspondence", time.time()))
     ck.extra["timing_s"] = {marks[i][0]: round(marks[i][1] - marks[i - 1][1], 2) for i in range(1, len(marks))}
-
-
-def _utf8_ok(b: bytes) -> bool:
-    try:
-        b.decode("utf-8")
-        return True
-    except UnicodeDecodeError:
-        return False
 
 
 def replay(ck, data):
